@@ -1,13 +1,13 @@
 CONSTANTS
-  ESet <- One
-  Shapes1 <- Shapes22
+  ESet <- OneToThree
+  Shapes1 <- Shapes33
   Shapes2 <- Shapes22
   Shapes3 <- Shapes22
-  RSet1 <- One
-  RSet2 <- One
+  RSet1 <- OneToThree
+  RSet2 <- OneTwo
   RSet3 <- One
   KeyMode = "before"
-  WalkMode = "forward"
+  WalkMode = "reverse"
 SPECIFICATION Spec
 INVARIANT Lossless
 INVARIANT NoError
